@@ -176,38 +176,131 @@ def strip_spec(spec, tilt):
     return spec
 
 
-def traces(seed, n_lens):
+# ---- independent reference (own code, nothing from optiland): launch basis, s-p-k frames, textbook Fresnel ----
+XH = np.array([1.0, 0.0, 0.0])
+
+
+def ref_field(k, st4):
+    """E0 of the stated state (Ex, Ey, phase_x, phase_y; normalised) for launch direction k"""
+    p = np.cross(k, XH); p = p / np.linalg.norm(p)
+    s = np.cross(p, k)
+    ex, ey, px, py = st4
+    return ex * np.exp(1j * px) * s + ey * np.exp(1j * py) * p
+
+
+def ref_surface(k0, k1, n1, n2, reflective, fresnel):
+    """polarization matrix O_out J O_in of one surface from the ray directions and the two indices"""
+    s = np.cross(k0, k1)
+    if np.linalg.norm(s) < 1e-8:
+        s = np.cross(k0, XH)
+    s = s / np.linalg.norm(s)
+    p0, p1 = np.cross(k0, s), np.cross(k1, s)
+    J = np.eye(3, dtype=complex)
+    if fresnel:
+        if reflective:
+            return None                       # Fresnel reflection is not part of the generated layouts
+        nv = n2 * k1 - n1 * k0                # refraction: the normal is along n2 k1 - n1 k0
+        if np.linalg.norm(nv) < 1e-12:        # equal indices: nothing happens at the interface
+            return np.stack([s, p1, k1], axis=1) @ np.stack([s, p0, k0], axis=0).astype(complex)
+        nv = nv / np.linalg.norm(nv)
+        ci = abs(float(np.dot(k0, nv)))
+        st = n1 / n2 * math.sqrt(max(0.0, 1 - ci * ci))
+        ct = math.sqrt(max(0.0, 1 - st * st))
+        ts = 2 * n1 * ci / (n1 * ci + n2 * ct)
+        tp = 2 * n1 * ci / (n2 * ci + n1 * ct)
+        J = np.diag([ts, tp, 1.0]).astype(complex)
+    return np.stack([s, p1, k1], axis=1) @ J @ np.stack([s, p0, k0], axis=0)
+
+
+def norm_state(raw):
+    m = math.hypot(raw[0], raw[1])
+    return [raw[0] / m, raw[1] / m, raw[2], raw[3]]
+
+
+NAMED_RAW = {'H': [1, 0, 0, 0], 'V': [0, 1, 0, 0], 'L+45': [1, 1, 0, 0], 'L-45': [1, -1, 0, 0],
+             'RCP': [1, 1, 0, -math.pi / 2], 'LCP': [1, 1, 0, math.pi / 2]}
+
+
+def mirror_first_spec(rng, cls):
+    """layouts whose first ray-bending surface is a mirror (object at infinity, oblique field)"""
+    inf = float('inf')
+    n = rng.uniform(1.4, 1.9)
+    concave = cls in ('concave-mirror-first', 'mirror-then-fresnel-lens') and rng.random() < 0.8
+    mirror = {'type': 'standard', 'radius': (-rng.uniform(80, 300) if concave else inf), 'thickness': -rng.uniform(8, 20),
+              'material': 'mirror', 'is_stop': True}
+    surfs = [mirror]
+    if cls == 'mirror-then-fresnel-plate':
+        surfs += [{'type': 'standard', 'radius': inf, 'thickness': -rng.uniform(2, 6), 'material': ['ideal', n, 0.0], 'is_stop': False},
+                  {'type': 'standard', 'radius': inf, 'thickness': -rng.uniform(5, 15), 'material': 'air', 'is_stop': False}]
+    elif cls == 'mirror-then-fresnel-lens':
+        surfs += [{'type': 'standard', 'radius': -rng.uniform(30, 90), 'thickness': -rng.uniform(2, 5), 'material': ['ideal', n, 0.0], 'is_stop': False},
+                  {'type': 'standard', 'radius': rng.uniform(40, 120), 'thickness': -rng.uniform(5, 15), 'material': 'air', 'is_stop': False}]
+    elif cls == 'fold-mirror-first' and rng.random() < 0.5:
+        surfs += [{'type': 'standard', 'radius': inf, 'thickness': -rng.uniform(3, 9), 'material': 'air', 'is_stop': False}]
+    th = rng.uniform(8, 40) if not concave else rng.uniform(4, 15)
+    return {'object_thickness': inf, 'surfaces': surfs, 'aperture': ['EPD', rng.uniform(1.0, 3.0)], 'field_type': 'angle',
+            'fields': [[0.0, 0.0, 0.0, 0.0], [th, 0.0, 0.0, 0.0]],
+            'wavelengths': [[0.55, True]], 'telecentric': False}
+
+
+MIRROR_CLASSES = ['fold-mirror-first', 'concave-mirror-first', 'mirror-then-fresnel-plate', 'mirror-then-fresnel-lens']
+
+
+def traces(seed, n_lens, n_mirror=8):
     import lensgen
     from optiland.rays import PolarizedRays, PolarizationState, create_polarization
+    from optiland.rays.ray_generator import RayGenerator
     rng = random.Random(seed)
     out = []
     rec = []
+    launch = []
     orig = PolarizedRays.update
+    orig_gen = RayGenerator.generate_rays
 
     def wrapped(self, jones_matrix=None):
-        rec.append((np.array([self.L0, self.M0, self.N0]).T.copy(), np.array([self.L, self.M, self.N]).T.copy(),
-                    None if jones_matrix is None else np.array(jones_matrix).copy()))
-        return orig(self, jones_matrix)
+        k0 = np.array([self.L0, self.M0, self.N0]).T.copy()
+        k1 = np.array([self.L, self.M, self.N]).T.copy()
+        J = None if jones_matrix is None else np.array(jones_matrix).copy()
+        r = orig(self, jones_matrix)
+        rec.append((k0, k1, J, np.array(self.p).copy()))
+        return r
+
+    def gen_wrapped(self, *a, **kw):
+        rays = orig_gen(self, *a, **kw)
+        # the directions actually launched, copied by the harness at launch time (never read back from the rays object)
+        launch.append(np.array([rays.L, rays.M, rays.N]).T.copy())
+        return rays
     PolarizedRays.update = wrapped
+    RayGenerator.generate_rays = gen_wrapped
     try:
-        for li in range(n_lens):
-            tilt = (li % 3 == 2)
-            coated = (li % 2 == 1)
-            spec = lensgen.gen_spec(rng, nsurf=rng.choice([1, 2, 3, 4, 5]), allow=['plane', 'standard', 'conic'],
-                                    mirrors=(li % 5 == 4), decenter=tilt)
-            strip_spec(spec, tilt)
-            if tilt:
-                s = spec['surfaces'][rng.randrange(len(spec['surfaces']))]
-                s['rx'] = rng.uniform(-0.15, 0.15); s['ry'] = rng.uniform(-0.15, 0.15)
+        for li in range(n_lens + n_mirror):
+            layout = 'generic'
             matched = False
-            if li % 4 == 0 and not any(x.get('material') == 'mirror' for x in spec['surfaces']):
-                # an index-matched (dummy) surface: same medium on both sides -> k1 = k0 up to rounding
-                pos = rng.randrange(len(spec['surfaces']))
-                before = spec['surfaces'][pos - 1]['material'] if pos > 0 else 'air'
-                dummy = {'type': 'standard', 'radius': rng.uniform(20, 150) * rng.choice([-1, 1]),
-                         'thickness': rng.uniform(0.5, 3.0), 'is_stop': False, 'material': before}
-                spec['surfaces'].insert(pos, dummy)
-                matched = True
+            if li >= n_lens:
+                layout = MIRROR_CLASSES[(li - n_lens) % 4]
+                spec = mirror_first_spec(rng, layout)
+                tilt = False
+                coated = layout.startswith('mirror-then-fresnel')
+            else:
+                tilt = (li % 3 == 2)
+                coated = (li % 2 == 1)
+                spec = lensgen.gen_spec(rng, nsurf=rng.choice([1, 2, 3, 4, 5]), allow=['plane', 'standard', 'conic'],
+                                        mirrors=(li % 5 == 4), decenter=tilt)
+                strip_spec(spec, tilt)
+                if tilt:
+                    s = spec['surfaces'][rng.randrange(len(spec['surfaces']))]
+                    s['rx'] = rng.uniform(-0.15, 0.15); s['ry'] = rng.uniform(-0.15, 0.15)
+                if li % 4 == 0 and not any(x.get('material') == 'mirror' for x in spec['surfaces']):
+                    # an index-matched (dummy) surface: same medium on both sides -> k1 = k0 up to rounding
+                    pos = rng.randrange(len(spec['surfaces']))
+                    before = spec['surfaces'][pos - 1]['material'] if pos > 0 else 'air'
+                    dummy = {'type': 'standard', 'radius': rng.uniform(20, 150) * rng.choice([-1, 1]),
+                             'thickness': rng.uniform(0.5, 3.0), 'is_stop': False, 'material': before}
+                    spec['surfaces'].insert(pos, dummy)
+                    matched = True
+                    layout = 'index-matched'
+                elif any(x.get('material') == 'mirror' for x in spec['surfaces']):
+                    layout = 'mirror-later'
             has_tilt = any(abs(s.get('rx', 0)) + abs(s.get('ry', 0)) > 0 for s in spec['surfaces'])
             try:
                 o = lensgen.build(spec)
@@ -217,16 +310,25 @@ def traces(seed, n_lens):
                 st = PolarizationState(True, *raw)
                 o.set_polarization(st)
                 w = o.primary_wavelength
-                Hy = rng.choice([0.0, 1.0, rng.uniform(0, 1)])
+                if layout in MIRROR_CLASSES:
+                    Hy = 1.0
+                    Hx = rng.choice([0.0, rng.uniform(-0.6, 0.6)])      # skew launch: x field angle = Hx * max field
+                else:
+                    Hy = rng.choice([0.0, 1.0, rng.uniform(0, 1)])
+                    Hx = rng.uniform(-0.3, 0.3) if Hy else 0.0
                 del rec[:]
+                del launch[:]
                 dist = 'hexapolar' if matched else rng.choice(['line_y', 'line_x', 'hexapolar'])
-                rays = o.trace(rng.uniform(-0.3, 0.3) if Hy else 0.0, Hy, w, num_rays=3, distribution=dist)
+                rays = o.trace(Hx, Hy, w, num_rays=3, distribution=dist)
+                sg = o.surface_group.surfaces[1:]
+                media = [(float(np.ravel(sf.material_pre.n(w))[0]), float(np.ravel(sf.material_post.n(w))[0]),
+                          bool(sf.is_reflective), sf.coating is not None) for sf in sg]
             except Exception as e:       # lens not traceable (e.g. paraxial failure): skipped, counted
-                out.append({'lens': li, 'skipped': type(e).__name__ + ': ' + str(e)[:80]})
+                out.append({'lens': li, 'layout': layout, 'skipped': type(e).__name__ + ': ' + str(e)[:80]})
                 continue
             n = rays.x.size
             kfin = np.array([rays.L, rays.M, rays.N]).T
-            klaunch = np.array([rays._L0, rays._M0, rays._N0]).T
+            klaunch = launch[-1]
             ipol = rays.i.copy()
             # other states on the same accumulated matrices
             ints = {}
@@ -252,15 +354,59 @@ def traces(seed, n_lens):
             for r in idx[:(8 if matched else 4)]:
                 fin = bool(np.all(np.isfinite(kfin[r])) and np.all(np.isfinite(rays.p[r])))
                 surfs = [{'k0': [float(x) for x in k0[r]], 'k1': [float(x) for x in k1[r]],
-                          'J': None if J is None else cflat(J[r])} for (k0, k1, J) in rec]
-                out.append({'lens': li, 'spec': spec, 'coated': coated, 'tilted': has_tilt, 'matched': matched, 'ray': int(r), 'finite': fin,
-                            'raw': raw, 'state': [st.Ex, st.Ey, st.phase_x, st.phase_y],
-                            'klaunch': [float(x) for x in klaunch[r]], 'kfinal': [float(x) for x in kfin[r]],
-                            'surfs': surfs, 'P': cflat(rays.p[r]), 'ipol': float(ipol[r]), 'iunpol': float(iun[r]),
-                            'i0': float(rays._i0[r]), 'ints': {k: float(v[r]) for k, v in ints.items()},
-                            'Edotk': float(abs(np.sum(E1[r] * kfin[r]))), 'E1': cflat(E1[r])})
+                          'J': None if J is None else cflat(J[r])} for (k0, k1, J, _) in rec]
+                item = {'lens': li, 'layout': layout, 'spec': spec, 'coated': coated, 'tilted': has_tilt, 'matched': matched,
+                        'ray': int(r), 'finite': fin, 'Hx': Hx, 'Hy': Hy,
+                        'raw': raw, 'state': [st.Ex, st.Ey, st.phase_x, st.phase_y],
+                        'klaunch': [float(x) for x in klaunch[r]], 'kfinal': [float(x) for x in kfin[r]],
+                        'klaunch_stored': [float(rays._L0[r]), float(rays._M0[r]), float(rays._N0[r])],
+                        'surfs': surfs, 'P': cflat(rays.p[r]), 'ipol': float(ipol[r]), 'iunpol': float(iun[r]),
+                        'i0': float(rays._i0[r]), 'ints': {k: float(v[r]) for k, v in ints.items()},
+                        'Edotk': float(abs(np.sum(E1[r] * kfin[r]))), 'E1': cflat(E1[r])}
+                # ---- independent reference for the STATED states, from the launch direction copied at launch ----
+                if fin and len(rec) == len(media) and abs(klaunch[r][1]) + abs(klaunch[r][2]) > 1e-9:
+                    kl = klaunch[r]
+                    stn = norm_state(raw)
+                    e0 = ref_field(kl, stn)
+                    item['ref_launch_field_err'] = float(np.max(np.abs(E0[r] - e0)))
+                    # field carried by the implementation's matrices, surface by surface
+                    item['ref_Edotk_surf'] = [float(abs(np.sum((Pi[r] @ e0) * k1[r]))) for (_, k1, _, Pi) in rec]
+                    Pref = np.eye(3, dtype=complex)
+                    ok = True
+                    jerr = 0.0
+                    for (k0, k1, J, _), (n1, n2, refl, coat) in zip(rec, media):
+                        Q = ref_surface(k0[r], k1[r], n1, n2, refl, coat)
+                        if Q is None:
+                            ok = False
+                            break
+                        Pref = Q @ Pref
+                    states = dict(NAMED_RAW)
+                    states['stated'] = raw
+                    if ok:
+                        item['ref_P_err'] = float(np.max(np.abs(Pref - rays.p[r])))
+                    ref_i, impl_P_i = {}, {}
+                    for nm, rw in states.items():
+                        e = ref_field(kl, norm_state(rw))
+                        impl_P_i[nm] = float(np.sum(np.abs(rays.p[r] @ e) ** 2))
+                        if ok:
+                            ref_i[nm] = float(np.sum(np.abs(Pref @ e) ** 2))
+                    ex, ey = ref_field(kl, [1, 0, 0, 0]), ref_field(kl, [0, 1, 0, 0])
+                    impl_P_i['unpolarized'] = float((np.sum(np.abs(rays.p[r] @ ex) ** 2) + np.sum(np.abs(rays.p[r] @ ey) ** 2)) / 2)
+                    if ok:
+                        ref_i['unpolarized'] = float((np.sum(np.abs(Pref @ ex) ** 2) + np.sum(np.abs(Pref @ ey) ** 2)) / 2)
+                    item['ref_int'] = ref_i            # own frames + textbook Fresnel + own launch field
+                    item['ref_int_implP'] = impl_P_i   # implementation's matrix applied to own launch field
+                    item['impl_int'] = dict({nm: item['ints'][nm] for nm in NAMES}, stated=item['ipol'], unpolarized=item['iunpol'])
+                    # launch direction requested: object at infinity, field angles (fy, fx): k ~ (-tan fx, tan fy, 1)
+                    if spec['object_thickness'] == float('inf') and spec['field_type'] == 'angle':
+                        mx = max(max(abs(f[0]) for f in spec['fields']), max(abs(f[1]) for f in spec['fields']))
+                        fy, fx = math.radians(mx * Hy), math.radians(mx * Hx)
+                        kk = np.array([-math.tan(fx), math.tan(fy), 1.0]); kk /= np.linalg.norm(kk)
+                        item['ref_launch_dir_err'] = float(min(np.max(np.abs(kk - kl)), np.max(np.abs(kk * [-1, 1, 1] - kl))))
+                out.append(item)
     finally:
         PolarizedRays.update = orig
+        RayGenerator.generate_rays = orig_gen
     return out
 
 
@@ -412,7 +558,7 @@ def main():
         res['named'] = named_cases()
         res['plates'] = wave_plates(rng, 12)
     if 'traces' in job['what']:
-        res['traces'] = traces(job['seed'] + 1, job['n_lens'])
+        res['traces'] = traces(job['seed'] + 1, job['n_lens'], job.get('n_mirror', 8))
     if 'oracles' in job['what']:
         c, f = oracles(job['seed'] + 2, job['n_oracle'])
         res['oracles'] = {'count': c, 'fails': f}
